@@ -42,6 +42,7 @@ func init() {
 		vapiPath + ".WaitIdle":     natWaitIdle,
 		vapiPath + ".Goroutines":   natGoroutines,
 		vapiPath + ".Blocked":      natBlocked,
+		vapiPath + ".WaitStuck":    natWaitStuck,
 	}
 	for k, v := range over {
 		natives[k] = v
@@ -73,7 +74,7 @@ func natWaitIdle(fr *frame, fn *ssa.Function, args []value) value {
 	me := s.cur
 	i.blockUntil(func() bool {
 		for _, g := range s.gs {
-			if g == me || g.done {
+			if g == me || g.done || g.watcher {
 				continue
 			}
 			if g.timer != nil && !g.timer.fired {
@@ -87,18 +88,34 @@ func natWaitIdle(fr *frame, fn *ssa.Function, args []value) value {
 	}, "vapi.WaitIdle")
 	n := 0
 	for _, g := range s.gs {
-		if g != me && !g.done && !(g.timer != nil && !g.timer.fired) {
+		if g != me && !g.done && !g.watcher && !(g.timer != nil && !g.timer.fired) {
 			n++
 		}
 	}
 	return n
 }
 
+// WaitStuck(): parks the caller (a harness watcher, not counted as program
+// work) until the timer budget is exhausted with every goroutine blocked.
+func natWaitStuck(fr *frame, fn *ssa.Function, args []value) value {
+	i := fr.i
+	s := i.sched
+	if s == nil || !s.on {
+		return zeroResults(fn)
+	}
+	me := s.cur
+	me.watcher = true
+	s.watchers++
+	i.blockUntil(func() bool { return s.stuck }, "vapi.WaitStuck")
+	s.watchers--
+	return zeroResults(fn)
+}
+
 func natGoroutines(fr *frame, fn *ssa.Function, args []value) value {
 	s := fr.i.sched
 	n := 0
 	for _, g := range s.gs {
-		if g != s.cur && !g.done && !(g.timer != nil && !g.timer.fired) {
+		if g != s.cur && !g.done && !g.watcher && !(g.timer != nil && !g.timer.fired) {
 			n++
 		}
 	}
@@ -110,7 +127,7 @@ func natBlocked(fr *frame, fn *ssa.Function, args []value) value {
 	s := fr.i.sched
 	var sb strings.Builder
 	for _, g := range s.gs {
-		if g != s.cur && !g.done && !(g.timer != nil && !g.timer.fired) {
+		if g != s.cur && !g.done && !g.watcher && !(g.timer != nil && !g.timer.fired) {
 			sb.WriteString("[" + g.name + ": " + g.why + "]")
 		}
 	}
